@@ -155,5 +155,9 @@ def insertT : Nat → InsT D
   | 0 => fun _ _ => fail .fuel
   | fuel + 1 => insertStepT c fresh g (insertT fuel)
 
+/-- `extend` is the insert loop on `*self`: a failed request inside the k-th insert leaves what the first k-1
+    inserts built (with that insert's own failure state) -/
+def extendT (fuel : Nat) (r : Rp) (xs : List Nat) : M D (Rp × Tr) := insertAllT (insertT c fresh g fuel) r xs
+
 end
 end SC
